@@ -42,7 +42,8 @@ ApplyAll(g, ops, i) == IF i > Len(ops) THEN g ELSE ApplyAll(ApplyGOp(g, ops[i]).
 \* Handle calls is explored to depth 3 (routers of one group must not see each other's middlewares)
 DeepBase == BaseOps \o <<[op |-> "guse", mws |-> <<"g">>], [op |-> "gadd", inst |-> "r1", m |-> Hosts(<<"a.com">>)], [op |-> "gadd", inst |-> "r2", m |-> PV(<<"v1">>)]>>
 DeepOps == {[op |-> "use", inst |-> "r1", mws |-> <<"a">>], [op |-> "use", inst |-> "r2", mws |-> <<"b">>], [op |-> "guse", mws |-> <<"h">>],
-            Hd("r1", "/y", <<"GET">>, <<>>), Hd("r2", "/y", <<"GET">>, <<"m">>), [op |-> "gremove", inst |-> "r1"]}
+            Hd("r1", "/y", <<"GET">>, <<>>), Hd("r2", "/y", <<"GET">>, <<"m">>), [op |-> "gremove", inst |-> "r1"],
+            [op |-> "gadd", inst |-> "r1", m |-> Nil]}      \* (r1 is in the group already: rejected, and must leave r1 as it was)
 \* three routers in the group: removing one must keep the order of the others
 Deep3Base == BaseOps \o <<[op |-> "gadd", inst |-> "r1", m |-> Hosts(<<"a.com">>)], [op |-> "gadd", inst |-> "r2", m |-> PV(<<"v1">>)]>>
              \o <<[op |-> "gnew", inst |-> "r3", m |-> Nil, cfg |-> RC("r3", FALSE)]>> \o Table("r3")
